@@ -45,3 +45,9 @@ package pipe
 //@   ensures[error_iff_truncated] (err == nil) <==> (n == len(p))
 //@   ensures[old_content_kept_in_order] b.w - b.r == oldLen + n && (forall k int :: 0 <= k && k < oldLen ==> b.buf[b.r+k] == old(b.buf[b.r+k]))
 //@   ensures[appended_in_order] forall k int :: 0 <= k && k < n ==> b.buf[b.r+oldLen+k] == p[k]
+
+//@ func (*Pipe).Write
+//@   trusted result range of the pipe write (its buffer is an interface; the body is not verified yet)
+//@   modifies *
+//@   ensures 0 <= n && n <= len(d)
+//@   ensures err == nil ==> n == len(d)
